@@ -46,6 +46,18 @@ func (p *Prog) Reachable(entries ...*ssa.Function) []*ssa.Function {
 		for _, af := range f.AnonFuncs {
 			push(af)
 		}
+		// interface calls: VTA only knows the concrete types that flow inside the
+		// library (a caller outside the module wires e.g. the operation parser into
+		// the provider); also follow every non-mock implementation in the module
+		for _, b := range f.Blocks {
+			for _, ins := range b.Instrs {
+				if c, ok := ins.(ssa.CallInstruction); ok && c.Common().IsInvoke() {
+					for _, impl := range p.Impls(c.Common().Method) {
+						push(impl)
+					}
+				}
+			}
+		}
 	}
 	var out []*ssa.Function
 	for f := range seen {
